@@ -62,6 +62,93 @@ def greedy_publishes(prog: Program, rep, RID: str):
         rep.violation(RID, "kFlowDecomp._get_solution_with_greedy:sibling-keys", f"edge and node branches publish different keys: {[sorted(k) for k in keysets]}", f.loc())
 
 
+def greedy_weight_type(prog: Program, rep, RID: str):
+    """The greedy route publishes weights of the requested numeric type, like the MILP route: the bottleneck values are
+    converted (round() for int after an integrality test, float() otherwise) and the padding weights are typed."""
+    from sa import boolnf as B
+    from rules.semantic import enclosing_tests
+    f = prog.own_method("kFlowDecomp", "_get_solution_with_greedy")
+    wv = None
+    src_line = None
+    for st in walk_no_nested(f.node):
+        if isinstance(st, ast.Assign) and isinstance(st.targets[0], ast.Tuple) and isinstance(st.value, ast.Call) and \
+                (dotted(st.value.func) or "").endswith("decompose_using_max_bottleneck"):
+            wv = norm(st.targets[0].elts[1])
+            src_line = st.lineno
+    if wv is None:
+        raise AnalysisError("greedy: (paths, weights) = decompose_using_max_bottleneck(...) not found")
+    is_int = B.parse(ast.parse("self.weight_type == int", mode="eval").body)
+    conv = {"int": [], "other": []}
+    unknown = []
+    for st in walk_no_nested(f.node):
+        if isinstance(st, ast.Assign) and len(st.targets) == 1 and norm(st.targets[0]) == wv and st.lineno > src_line:
+            v = st.value
+            fn = None
+            if isinstance(v, ast.ListComp) and isinstance(v.elt, ast.Call) and norm(v.generators[0].iter) == wv:
+                fn = dotted(v.elt.func)
+            elif isinstance(v, ast.Call) and dotted(v.func) == "list" and v.args and isinstance(v.args[0], ast.Call) and dotted(v.args[0].func) == "map" \
+                    and len(v.args[0].args) == 2 and norm(v.args[0].args[1]) == wv:
+                fn = dotted(v.args[0].args[0])
+            if fn is None:
+                unknown.append(norm(st)[:80])
+                continue
+            g = B.mk_and([B.parse_pol(t, pol) for t, pol in enclosing_tests(f.node, st)])
+            if fn == "self.weight_type":
+                conv["int"].append((st, fn))
+                conv["other"].append((st, fn))
+            elif B.implies(g, is_int) and fn in ("round", "int"):
+                conv["int"].append((st, fn))
+            elif B.implies(g, B.mk_not(is_int)) and fn == "float":
+                conv["other"].append((st, fn))
+            else:
+                unknown.append(norm(st)[:80])
+    key = "kFlowDecomp._get_solution_with_greedy:weight-type"
+    if unknown:
+        raise AnalysisError(f"greedy: cannot classify the conversion of the greedy weights: {unknown[0]}")
+    if conv["int"] and conv["other"]:
+        rep.ok(RID, key, "greedy weights are converted to the requested type (round() under weight_type == int, float() otherwise)", f.loc(conv["int"][0][0]))
+    else:
+        rep.violation(RID, key, f"the greedy route publishes `{wv}` as returned by decompose_using_max_bottleneck, i.e. in the type of the input flow values "
+                      f"(conversions found: int case {len(conv['int'])}, other case {len(conv['other'])}): int flows give int weights for weight_type=float and "
+                      "float flows give float weights for weight_type=int, unlike the MILP route", f"{f.module.relpath}:{src_line}")
+    # rounding is preceded by an integrality test that hands non-integral bottlenecks to the MILP
+    for st, fn in conv["int"]:
+        if fn not in ("round", "int"):
+            continue
+        key3 = "kFlowDecomp._get_solution_with_greedy:integrality-test"
+        guarded = False
+        for other in walk_no_nested(f.node):
+            if isinstance(other, ast.If) and other.lineno < st.lineno and any(isinstance(x, ast.Return) and isinstance(x.value, ast.Constant) and x.value.value is False
+                                                                              for x in other.body):
+                t = norm(other.test)
+                if "round(" in t and ("!=" in t or "==" in t or "is_integer" in t):
+                    guarded = True
+        if guarded:
+            rep.ok(RID, key3, "non-integral bottlenecks are not rounded: the greedy result is rejected and the MILP decides", f.loc(st))
+        else:
+            rep.violation(RID, key3, f"`{norm(st)[:80]}` rounds the greedy bottlenecks without testing that they are integral: a non-integral flow would be "
+                          "explained by rounded weights", f.loc(st))
+    # padding weights
+    n = 0
+    for st in walk_no_nested(f.node):
+        if isinstance(st, ast.AugAssign) and norm(st.target) == wv and isinstance(st.value, (ast.ListComp, ast.List, ast.BinOp)):
+            n += 1
+            elt = st.value.elt if isinstance(st.value, ast.ListComp) else (st.value.elts[0] if isinstance(st.value, ast.List) and st.value.elts else
+                                                                           (st.value.left.elts[0] if isinstance(st.value, ast.BinOp) and isinstance(st.value.left, ast.List) and st.value.left.elts else None))
+            key2 = "kFlowDecomp._get_solution_with_greedy:padding-type"
+            if elt is None:
+                raise AnalysisError(f"greedy: padding `{norm(st)[:80]}` not understood")
+            if isinstance(elt, ast.Call) and dotted(elt.func) == "self.weight_type":
+                rep.ok(RID, key2, f"padding weights are `{norm(elt)}`", f.loc(st))
+            elif isinstance(elt, ast.Constant):
+                rep.violation(RID, key2, f"the paths added to reach k get the literal weight `{norm(elt)}` whatever weight_type is: a float model returns a mixed "
+                              "list such as [7.0, 4.0, 2.0, 0, 0]", f.loc(st))
+            else:
+                raise AnalysisError(f"greedy: padding element `{norm(elt)}` not understood")
+    if n == 0:
+        raise AnalysisError("greedy: padding of the weights up to k not found")
+
+
 def check(prog: Program, rep):
     rep.rule("C02.R1", "flow-decomposition families conform to the frozen formulation table (10d, linking, given weights)", floor=15)
     conformance(prog, rep, "C02.R1", "C02")
@@ -78,6 +165,7 @@ def check(prog: Program, rep):
     adoption_guards(prog, rep, "C02.R4")
     greedy_rejection(prog, rep, "C02.R4")
     greedy_publishes(prog, rep, "C02.R4")
+    greedy_weight_type(prog, rep, "C02.R4")
     rep.rule("C02.R5", "walk reconstruction conserves the solver's multiplicities (shared with C14.R1)", floor=6)
     from rules import c14
     c14.trail_loop_rule(prog, rep, "C02.R5", prog.own_method("AbstractWalkModelDiGraph", "_reconstruct_eulerian_walk"), ("walk",))
@@ -97,3 +185,9 @@ def check(prog: Program, rep):
     rep.rule("C02.R9", "variables the encoders treat as fixed (edges_set_to_one / zero through queued bounds) are really fixed: queued updates reach the solver on every path (C12.R5)", floor=1)
     from rules.c12 import apply_before_run
     apply_before_run(prog, RuleProxy(rep, "C02.R9"), "C12.R5")
+    rep.rule("C02.R10", "solutions hand out every route that carries flow: remove-empty filters decide emptiness on the internal route (C01.R5); "
+             "given weights are integral when weight_type is int (published = modelled)", floor=3)
+    from rules import ns as _ns
+    _ns.arity_rule(prog, RuleProxy(rep, "C02.R10"), "C01.R5", only=("kFlowDecomp", "kFlowDecompCycles"))
+    from rules.providers import given_weights_integral
+    given_weights_integral(prog, rep, "C02.R10", ["kFlowDecomp"])
